@@ -22,7 +22,7 @@ ASCII_KIND = {"t": "f", "x": "f", "y": "f", "z": "f", "mass": "f", "p0": "f", "p
               "proc_id_origin": "i", "proc_type_origin": "i", "time_last_coll": "f", "pdg_mother1": "p",
               "pdg_mother2": "p", "baryon_number": "i", "strangeness": "i"}
 PDGS = [211, -211, 111, 2212, 2112, -2212, 321, -321, 22, 11, -11, 3122, 3312, 1000010020, 12, 21, 2, -3,
-        9999999, 0, 123456, 310, 130, 3334, 4122]
+        9999999, 0, 123456, 310, 130, 3334, 4122, -111, 221, -221]
 
 
 def real_tok(rng):
